@@ -143,6 +143,9 @@ func buildPlan(id string, pinned map[string]string, tier string) *Plan {
 			p.Units = append(p.Units, Unit{Pkg: "./" + t.Rel, Tags: "", Groups: []string{"tower"}})
 			p.Units = append(p.Units, Unit{Pkg: "./" + t.Fp, Tags: "", Groups: []string{"nr"}})
 		}
+		for _, c := range smallExts {
+			p.Units = append(p.Units, Unit{Pkg: "./" + c.Rel, Tags: "", Groups: []string{"tower"}})
+		}
 		p.Trusted = []string{
 			"ring layer: a method of an abstract element type is interpreted by the ring operation that its own contract states one layer below (fp.Element: C01 contracts; E2: contracts at layer 'ring fp.Element'; E6: at layer 'ring E2')",
 			"Z-lifting: a polynomial identity with integer coefficients proved over the integers holds in every commutative ring (only this direction is used)",
@@ -152,7 +155,7 @@ func buildPlan(id string, pinned map[string]string, tier string) *Plan {
 		p.NotCovered = []string{"BatchInvert / Div / Sqrt / Legendre / Exp of the tower types: not under contract",
 			"Frobenius maps, cyclotomic and compressed squarings, torus compression, Expt/ExpGLV chains: not under contract",
 			"bw6-633 / bw6-761 (E3 = Fp[u]/(u^3 - nr), E6 = E3[v]/(v^2 - u)): Add/Sub/Double/Neg/Mul/Square/Inverse/MulByNonResidue/MulByElement/Conjugate, the sparse products MulBy01/1/12/014/01245, Mul01By01, Mul014By014 and the value of nr (fp.MulByNonResidue) are under contract; their cyclotomic/compressed squarings, Frobenius, Expt chains, torus compression and the direct sextic representation (E6D) are not",
-			"small-field extensions (koalabear/babybear/goldilocks E2, E4): not under contract",
+			"small-field extensions (koalabear / babybear E2, E4; goldilocks E2): Add/Sub/Double/Neg/Conjugate/Mul/Square/Inverse/MulByNonResidue/MulByElement/MulByE2/norm are under contract with the documented quadratic non-residues 3 / 11 / 7; Div, Sqrt, Legendre, Exp, Halve, BatchInvert, MulAccE4 (AVX-512) are not",
 			"assembly E2 kernels on amd64 (e2_amd64.s): outside (C09)"}
 		p.Note = "Every tower operation under contract equals the product/sum computed by schoolbook convolution in R[X]/(X^k - nr) from the documented polynomials; sparse products equal the generic product applied to the operand with the documented zero/one coordinates; all alias partitions, including (where the contract says 'option interior') operands pointing into the receiver."
 		return p
@@ -257,6 +260,9 @@ func buildPlan(id string, pinned map[string]string, tier string) *Plan {
 		}
 		for _, t := range towers63 {
 			p.Units = append(p.Units, Unit{Pkg: "./" + t.Rel, Tags: "", Groups: []string{"tower"}, MultiPartOnly: true})
+		}
+		for _, c := range smallExts {
+			p.Units = append(p.Units, Unit{Pkg: "./" + c.Rel, Tags: "", Groups: []string{"tower"}, MultiPartOnly: true})
 		}
 		p.Note = "Every function with two or more pointer operands of the same type is verified once per set partition of those operands (exact points-to per partition); postconditions are over old() values and the frame clause forbids writes to non-destination operands."
 		return p
